@@ -46,17 +46,26 @@ long long c_coord2cell(long long nrows, long long ncols,
     long long nval, double * xycoords, long long * idxcell)
 {
     long long ierr, i, nx, ny;
+    double fx, fy;
     ierr = 0;
 
     for(i=0; i<nval; i++)
     {
-        nx = (long long)((xycoords[2*i]-xll)/csz);
-        ny = nrows-1-(long long)((xycoords[2*i+1]-yll)/csz);
+        /* Column and row (from the bottom) of the cell containing the point.
+         * floor and not truncation, so that points just left of or below
+         * the grid are outside. The comparison is done on doubles to
+         * discard nan, infinite and huge values before converting. */
+        fx = floor((xycoords[2*i]-xll)/csz);
+        fy = floor((xycoords[2*i+1]-yll)/csz);
 
-        if(nx<0 || nx>=ncols || ny<0 || ny>=nrows)
+        if(!(fx>=0 && fx<(double)ncols && fy>=0 && fy<(double)nrows))
             idxcell[i] = -1;
         else
+        {
+            nx = (long long)fx;
+            ny = nrows-1-(long long)fy;
             idxcell[i] = ny*ncols+nx;
+        }
     }
 
     return ierr;
